@@ -411,10 +411,18 @@ func initRollingFileLogger(
 		normalMaxLevel = WarnLevel
 	}
 
+	// Without a logger-level layout the events reach the file appenders
+	// unformatted, so the appenders need a layout of their own.
+	var layout Layout
+	if f.Layout == nil {
+		layout = &TextLayout{BaseLayout: BaseLayout{FileLineLength: 48}}
+	}
+
 	// Create appenders for the normal log file
 	appenders := []*AppenderRef{
 		{
 			Appender: &RollingFileAppender{
+				Layout:   layout,
 				FileDir:  f.FileDir,
 				FileName: f.FileName,
 				Rotation: f.Rotation,
@@ -431,6 +439,7 @@ func initRollingFileLogger(
 	if f.Separate {
 		appenders = append(appenders, &AppenderRef{
 			Appender: &RollingFileAppender{
+				Layout:   layout,
 				FileDir:  f.FileDir,
 				FileName: f.FileName + ".wf",
 				Rotation: f.Rotation,
